@@ -385,6 +385,21 @@ def run(c):
         c.violation("routed query %s" % ("fails: " + res["err"][:120] if res["err"] else "returns different rows than the base table") + (" [class %s]" % reason if reason else ""),
                     {"kind": "case", "case": case, "class": reason, "routed_sql": res["sql"][:900], "routed_rows": [list(map(str, r)) for r in (res["rows"] or [])[:8]],
                      "base_rows": [list(map(str, r)) for r in res["base"][:8]]})
+    # granularity pairs the CODE admits although the coarser buckets are not unions of the finer ones: show the failing rows
+    # (this is also the search for a failing input when the regenerated granularity function no longer translates or proves)
+    from harness.props import c09
+    NESTED = {("hour", "hour"), ("day", "hour"), ("day", "day"), ("week", "hour"), ("week", "day"), ("week", "week"), ("month", "hour"), ("month", "day"), ("month", "month"),
+              ("quarter", "hour"), ("quarter", "day"), ("quarter", "month"), ("quarter", "quarter"), ("year", "hour"), ("year", "day"), ("year", "month"), ("year", "quarter"), ("year", "year")}
+    for q in GRANS:
+        for pgran in GRANS:
+            if c09.py_compatible(q, pgran) and (q, pgran) not in NESTED:
+                rows = c09.e2e_rows(c.rng)
+                routed, rr, rb, sql_r = c09.e2e_pair(q, pgran, rows)
+                if routed and rr != rb:
+                    c.violation("a %s query is routed to a %s rollup although %s buckets are not unions of %s buckets; rows differ" % (q, pgran, q, pgran),
+                                {"kind": "gran", "q": q, "p": pgran, "rows": rows, "routed_sql": sql_r[:800], "differing": [x for x in rr if x not in rb][:4]})
+                else:
+                    c.violation("_is_granularity_compatible(%r, %r) admits a pair that is not calendar-nested" % (q, pgran), {"kind": "gran", "q": q, "p": pgran}, found_input=False)
     c.obligation("oracle: routed rows == base rows and every routing decision exactly derivable (%d routed of %d queries)" % (stats["routed"], len(cases)), not c.violations, "correspondence")
     evals += len(cases)
     c.coverage.update({"evaluations": evals, "distinct_nontrivial": nontrivial,
@@ -433,6 +448,12 @@ def corpus_cases():
 
 def replay(path):
     body = json.load(open(path))
+    if body["replay"].get("kind") == "gran":
+        from harness.props import c09
+        r = body["replay"]
+        routed, rr, rb, sql = c09.e2e_pair(r["q"], r["p"], [tuple(x) for x in r.get("rows", [])] or c09.e2e_rows(__import__("random").Random(1)))
+        print(sql)
+        return 1 if routed and rr != rb else 0
     case = body["replay"]["case"]
     case["rows"] = [(r[0], datetime.datetime.fromisoformat(r[1]) if isinstance(r[1], str) else r[1], r[2], r[3], r[4], r[5]) for r in case["rows"]]
     res = real(case)
